@@ -445,7 +445,7 @@ impl Schema {
                     }
                 };
 
-                let (env, _) = match prepare_request(
+                let (env, cache_control) = match prepare_request(
                     extensions,
                     request.inner,
                     session_data,
@@ -466,8 +466,25 @@ impl Schema {
                 };
 
                 if env.operation.node.ty != OperationType::Subscription {
+                    // like `Schema::execute` (and the static `execute_stream`): inside the
+                    // `execute` hooks of the registered extensions
+                    let f = |execute_data: Option<Data>| {
+                        let env = env.clone();
+                        let schema = schema.clone();
+                        let root_value = &request.root_value;
+                        async move {
+                            schema
+                                .execute_once(env, root_value, execute_data)
+                                .await
+                                .cache_control(cache_control)
+                        }
+                    };
                     yielder
-                        .yield_item(schema.execute_once(env, &request.root_value, None).await)
+                        .yield_item(
+                            env.extensions
+                                .execute(env.operation_name.as_deref(), f)
+                                .await,
+                        )
                         .await;
                     return;
                 }
